@@ -2,16 +2,23 @@
    Inputs are described compactly (Coq elaborates large literals slowly): the bytes of all messages once,
    the cut positions, and the oracle tables as slices of those bytes. *)
 From Coq Require Import List ZArith NArith Bool.
+From Coq Require Export Init.Byte.
+From Coq Require Strings.Byte.
 From Circ Require Import Lib.Obs Model.HttpFraming.
 Import ListNotations.
 
+(* byte strings are compared by length and a polynomial checksum (keeps the literals small) *)
+Definition cks (l : list N) : Z :=
+  fold_left (fun acc b => ((acc * 257 + Z.of_N b + 1) mod 1000000007)%Z) l 0%Z.
+Definition Tc (l : list N) : T := Tl [Tnat (length l); Tn (cks l)].
+
 Definition obs_state (s : pstate) : T :=
   match s with
-  | PFirst buf => Tl [Tn 0; Tb buf]
-  | PHead fl _ buf => Tl [Tn 1; Tb fl; Tb buf]
-  | PBody fl blk clen rest body => Tl [Tn 2; Tb fl; Tb blk; Topt Tn clen; Topt Tn rest; Tb body]
-  | PChunk fl blk body buf => Tl [Tn 3; Tb fl; Tb blk; Tb body; Tb buf]
-  | PDone fl blk body => Tl [Tn 4; Tb fl; Tb blk; Tb body]
+  | PFirst buf => Tl [Tn 0; Tc buf]
+  | PHead fl _ buf => Tl [Tn 1; Tc fl; Tc buf]
+  | PBody fl blk _ _ body => Tl [Tn 2; Tc fl; Tc blk; Tc body]
+  | PChunk fl blk body buf => Tl [Tn 3; Tc fl; Tc blk; Tc body; Tc buf]
+  | PDone fl blk body => Tl [Tn 4; Tc fl; Tc blk; Tc body]
   | PErr e => Tl [Tn 5; TN e]
   | PCrash => Tl [Tn 6]
   | POutOfFuel => Tl [Tn 7]
@@ -38,7 +45,7 @@ Definition obs_short (s : pstate) : T :=
 
 Definition obs_event (e : event) : T :=
   match e with
-  | EMsg fl blk body => Tl [Tn 0; Tb fl; Tb blk; Tb body]
+  | EMsg fl blk body => Tl [Tn 0; Tc fl; Tc blk; Tc body]
   | EBad => Tl [Tn 1]
   | ECrash => Tl [Tn 2]
   end.
@@ -67,15 +74,17 @@ Definition no_emit (s : pstate) : option (list event) := None.
 Section Run.
 Variable mode : nat.                       (* 0 raw parser, 1 server HTTP, 2 client HTTP *)
 Variable kind_resp : bool.
-Variable msg : list N.
-Variable cuts : list nat.
-Variable sfl : list (nat * nat * option bool).                       (* first-line table, keys as slices *)
+Variable msgb : list byte.                  (* byte constructors elaborate much faster than N numerals *)
+Variable cutr : list (N * N).              (* cut positions: every position in each range [a, b] (binary numerals: cheap) *)
+Variable sfl : list (N * N * option bool).                           (* first-line table, keys as slices *)
 Variable lfl : list (list N * option bool).                          (* ... and literally *)
-Variable shd : list (nat * nat * option (option Z * bool)).
+Variable shd : list (N * N * option (option Z * bool)).
 Variable lhd : list (list N * option (option Z * bool)).
 
-Let tfl := map (fun e => (slice (fst (fst e)) (snd (fst e)) msg, snd e)) sfl ++ lfl.
-Let thd := map (fun e => (slice (fst (fst e)) (snd (fst e)) msg, snd e)) shd ++ lhd.
+Let msg := map Strings.Byte.to_N msgb.
+Let cuts := flat_map (fun r => seq (N.to_nat (fst r)) (N.to_nat (snd r) - N.to_nat (fst r) + 1)) cutr.
+Let tfl := map (fun e => (slice (N.to_nat (fst (fst e))) (N.to_nat (snd (fst e))) msg, snd e)) sfl ++ lfl.
+Let thd := map (fun e => (slice (N.to_nat (fst (fst e))) (N.to_nat (snd (fst e))) msg, snd e)) shd ++ lhd.
 Let emit := match mode with O => no_emit | S O => srv_emit | _ => cli_emit end.
 
 Fixpoint conn_trace (s : pstate) (reads : list (list N)) : list (pstate * list event) :=
